@@ -744,6 +744,17 @@ func (l *commitLog) split(oldActiveSegment *segment) error {
 	offset := l.NewestOffset() + 1
 	l.Logger.Debugf("Appending new log segment for %s with base offset %d", l.Path, offset)
 	segment, err := newSegment(l.Path, offset, l.MaxSegmentBytes, true, "")
+	if err == ErrSegmentExists {
+		// The active segment is still the one the caller checked and splits
+		// are serialized by the log mutex, so no other thread is rolling this
+		// segment: the files for this base offset are left over from a roll
+		// that failed after creating them, or they belong to a segment of the
+		// log (the active segment itself if the offsets written to it do not
+		// increase). Checking again cannot succeed, so this must not be
+		// reported as ErrSegmentExists, which makes checkAndPerformSplit retry.
+		return errors.Wrapf(err,
+			"cannot roll segment with base offset %d for log %s", offset, l.Path)
+	}
 	if err != nil {
 		return err
 	}
